@@ -16,6 +16,9 @@ for d in seeded/$pat/; do
   id=$(basename "$d"); prop=${id%%-*}
   case "$id" in D*) prop=$(python3 -c 'import json,sys; print(json.load(open(sys.argv[1]))["breaks_property"].split()[0])' "$d/meta.json") ;; esac
   [ -f "$d/patch.diff" ] || continue
+  # a change may name another check as the one expected to report it
+  alt=$(python3 -c 'import json,sys; print(json.load(open(sys.argv[1])).get("matrix_check",""))' "$d/meta.json" 2>/dev/null)
+  [ -n "$alt" ] && prop="$alt"
   kind=$(case "$id" in *-b*) echo benign ;; *) echo breaking ;; esac)
   line=$(MUTANT_BASELINE=0 tools/try_mutant.sh "$d/patch.diff" "$prop" 2>&1 | grep "^$prop rc=")
   rc=$(echo "$line" | sed -n 's/.* rc=\([0-9]*\) .*/\1/p')
